@@ -492,3 +492,15 @@ def rule_commit(ctx):
 
 
 RULES.append(("C01.o", "branch-commit: between the decision to perform an effect and the effect there is no way out", rule_commit))
+
+
+def rule_deps(ctx):
+    from . import c09, c15, c20
+    c20.rule_a(ctx)
+    c20.rule_b(ctx)
+    c09.rule_a(ctx)
+    c15.rule_a(ctx)
+    c15.rule_b(ctx)
+
+
+RULES.append(("C01.p", "the mechanisms chronological execution rests on: queue order (C20.a/b), cancelled heads skipped (C09.a), untorn time reads (C15.a/b)", rule_deps))
